@@ -137,7 +137,50 @@ func (p *Pool) Call(op string, args ...string) string {
 	}
 	m := <-p.ch
 	defer func() { p.ch <- m }()
-	return m.Call(op, args...)
+	rep := m.Call(op, args...)
+	xlog(op, args, rep)
+	return rep
+}
+
+// Extraction cross-check: when VERIF_XLOG names a file, a bounded sample of the requests of a
+// few operations and the extracted model's replies is appended to it; bin/xcheck re-evaluates
+// them inside Coq (vm_compute on the Gallina definitions) and compares.
+var (
+	xlogMu    sync.Mutex
+	xlogFile  *os.File
+	xlogCount = map[string]int{}
+	xlogOps   = map[string]bool{"rct_fwd": true, "rle_encode": true, "dwt_fwd1d": true, "dwt_inv1d": true, "mq_encode": true}
+)
+
+func xlog(op string, args []string, rep string) {
+	if !xlogOps[op] {
+		return
+	}
+	path := os.Getenv("VERIF_XLOG")
+	if path == "" {
+		return
+	}
+	n := len(rep)
+	for _, a := range args {
+		n += len(a)
+	}
+	if n > 3000 {
+		return
+	}
+	xlogMu.Lock()
+	defer xlogMu.Unlock()
+	if xlogCount[op] >= 60 {
+		return
+	}
+	if xlogFile == nil {
+		f, err := os.OpenFile(path, os.O_CREATE|os.O_APPEND|os.O_WRONLY, 0o644)
+		if err != nil {
+			return
+		}
+		xlogFile = f
+	}
+	xlogCount[op]++
+	fmt.Fprintf(xlogFile, "%s\t%s\t%s\n", op, strings.Join(args, " "), rep)
 }
 func (p *Pool) Close() {
 	for _, m := range p.ms {
